@@ -2,7 +2,8 @@
    Only statements; proofs live in theories/Path. *)
 From Coq Require Import String List NArith Bool.
 From Coq Require Import Lia.
-From BFG Require Import Base.Chars Path.PathAlg Path.PathAlgProofs Path.PathAlgMk Path.PathAlgRt Path.PathAlgNested.
+From BFG Require Import Base.Chars Path.PathAlg Path.PathAlgProofs Path.PathAlgMk Path.PathAlgRt Path.PathAlgNested
+                        Path.PathAlgWf Path.PathAlgOrder Path.PathAlgTrees Path.PathAlgOps.
 Import ListNotations.
 
 (* Whatever string, root (plain or a base path) and flags the constructor accepts, the stored components
@@ -106,7 +107,275 @@ Theorem C12_uniquetrees_refuted : exists a b,
 Proof. eexists. eexists. vm_compute. repeat split. Qed.
 Print Assumptions C12_uniquetrees_refuted.
 
+(* ---- phase 2: the algebraic laws, proved over the same model ---- *)
+
+(* Python compares the component lists lexicographically; the common prefix (lcp) of the minimum and the maximum
+   of a non-empty family is the longest common prefix of the whole family *)
+Theorem C12_lcp_min_max : forall x l,
+  (forall y, In y (x :: l) -> prefix (lcp (list_min x l) (list_max x l)) y) /\
+  (forall d, (forall y, In y (x :: l) -> prefix d y) -> prefix d (lcp (list_min x l) (list_max x l))).
+Proof. exact lcp_min_max. Qed.
+Print Assumptions C12_lcp_min_max.
+
+(* commonprefix of a non-empty list of well-formed paths under one non-absolute root, not all of them the root
+   directory itself, returns a well-formed path under the same root whose component list is a prefix of every
+   input (component-wise) and maximal: every common component prefix is a prefix of it.  The result is flagged a
+   non-directory exactly when all inputs have the same components. *)
+Theorem C12_commonprefix : forall p0 rest,
+  (forall p, In p (p0 :: rest) -> wfp p) ->
+  (forall p, In p (p0 :: rest) -> p_root p = p_root p0) ->
+  root_eqb (p_root p0) Absolute = false ->
+  existsb (fun p => negb (is_nil (p_comps p))) (p0 :: rest) = true ->
+  exists r, commonprefix (p0 :: rest) = Some (Some r) /\ wfp r /\ p_root r = p_root p0 /\ p_destdir r = false /\
+    (forall p, In p (p0 :: rest) -> prefix (p_comps r) (p_comps p)) /\
+    (forall d, (forall p, In p (p0 :: rest) -> prefix d (p_comps p)) -> prefix d (p_comps r)) /\
+    (p_dir r = false <-> forall p, In p (p0 :: rest) -> p_comps p = p_comps p0).
+Proof. exact commonprefix_spec. Qed.
+Print Assumptions C12_commonprefix.
+
+(* the same for absolute paths, provided they share their first component (else: C12_commonprefix_refuted) *)
+Theorem C12_commonprefix_abs : forall p0 rest c0,
+  (forall p, In p (p0 :: rest) -> wfp p) ->
+  (forall p, In p (p0 :: rest) -> p_root p = p_root p0) ->
+  root_eqb (p_root p0) Absolute = true ->
+  (forall p, In p (p0 :: rest) -> exists t, p_comps p = c0 :: t) ->
+  exists r, commonprefix (p0 :: rest) = Some (Some r) /\ wfp r /\ p_root r = p_root p0 /\ p_destdir r = false /\
+    (forall p, In p (p0 :: rest) -> prefix (p_comps r) (p_comps p)) /\
+    (forall d, (forall p, In p (p0 :: rest) -> prefix d (p_comps p)) -> prefix d (p_comps r)) /\
+    (p_dir r = false <-> forall p, In p (p0 :: rest) -> p_comps p = p_comps p0).
+Proof. exact commonprefix_spec_abs. Qed.
+Print Assumptions C12_commonprefix_abs.
+
+(* the guard is needed: when every input is the root directory itself commonprefix raises *)
+Theorem C12_commonprefix_rootdir_refuted : exists a,
+  mk (STR "") (RRoot Srcdir) None None = Some a /\ wfp a /\ commonprefix [a; a] = None.
+Proof.
+  eexists. split; [vm_compute; reflexivity|]. split; [|vm_compute; reflexivity].
+  constructor; cbn; try reflexivity; try lia; try discriminate; try constructor.
+Qed.
+Print Assumptions C12_commonprefix_rootdir_refuted.
+
+(* uniquetrees, for ALL inputs, in terms of the sort keys (root value, split) the implementation compares:
+   the result is a subset of the input, the key of every input extends the key of some result, and no two results
+   have comparable keys (sortedness argument: whatever lies below a kept path follows it immediately) *)
+Theorem C12_uniquetrees_keys : forall ps,
+  incl (uniquetrees ps) ps /\
+  (forall p, In p ps -> exists u, In u (uniquetrees ps) /\ kprefix (key_of u) (key_of p)) /\
+  ForallOrdPairs (fun u v => ischild (key_of u) (key_of v) = false) (uniquetrees ps).
+Proof. exact uniquetrees_keys. Qed.
+Print Assumptions C12_uniquetrees_keys.
+
+(* on well-formed paths (any roots, absolute included, but not the file-system root itself) whose roots have distinct
+   values the keys mean what they should: result is a subset of the input, every input lies below or equals some
+   result (same root, component prefix), no result lies below or equals another result (antichain, no duplicates) *)
+Theorem C12_uniquetrees : forall ps,
+  (forall p, In p ps -> wfp p /\ not_fsroot p) ->
+  (forall p q, In p ps -> In q ps -> root_value (p_root p) = root_value (p_root q) -> p_root p = p_root q) ->
+  incl (uniquetrees ps) ps /\
+  (forall p, In p ps -> exists u, In u (uniquetrees ps) /\ under u p) /\
+  ForallOrdPairs (fun u v => ~ under u v /\ ~ under v u) (uniquetrees ps).
+Proof. exact uniquetrees_spec. Qed.
+Print Assumptions C12_uniquetrees.
+
+(* the second guard is needed as well: the file-system root is not recognised as an ancestor *)
+Theorem C12_uniquetrees_fsroot_refuted : exists a b,
+  mk (STR "/") (RRoot Absolute) None None = Some a /\ mk (STR "/a") (RRoot Absolute) None None = Some b /\
+  uniquetrees [a; b] = [a; b].
+Proof. eexists. eexists. vm_compute. repeat split. Qed.
+Print Assumptions C12_uniquetrees_fsroot_refuted.
+
+(* parent / basename / append: for a well-formed path with a non-empty suffix whose LAST component is not of the
+   form x:... (finding basename-drive-like) the parent exists, is a well-formed directory path under the same root
+   with the last component removed, and appending the basename gives the path back exactly, except for the
+   directory flag: append derives it from the appended string, so the result is flagged a non-directory (the
+   file-system root, whose parent is itself, stays a directory) *)
+Theorem C12_parent_append : forall p,
+  wfp p -> is_nil (suffix_str p) = false -> nodrive [last (p_comps p) []] ->
+  exists q, parent p = Some q /\ wfp q /\ p_dir q = true /\ p_root q = p_root p /\
+            p_comps q = removelast (p_comps p) /\
+            append q (basename p) = Some (set_dir p (is_nil (p_comps p))).
+Proof. exact parent_append. Qed.
+Print Assumptions C12_parent_append.
+
+(* the same, as Python equality sees it *)
+Theorem C12_parent_append_eq : forall p,
+  wfp p -> is_nil (suffix_str p) = false -> nodrive [last (p_comps p) []] ->
+  exists q r, parent p = Some q /\ append q (basename p) = Some r /\ path_eqb r p = true.
+Proof. exact parent_append_eq. Qed.
+Print Assumptions C12_parent_append_eq.
+
+(* the guard on the last component is needed *)
+Theorem C12_parent_append_basename_refuted : exists p q,
+  mk (STR "x/c:d") (RRoot Srcdir) None None = Some p /\ wfp p /\ parent p = Some q /\ append q (basename p) = None.
+Proof.
+  eexists. eexists. split; [vm_compute; reflexivity|]. split; [|vm_compute; auto].
+  constructor; cbn; try reflexivity; try lia; try discriminate.
+  all: try (apply normalb_ok; vm_compute; reflexivity).
+  all: try (intros _; vm_compute; discriminate).
+Qed.
+Print Assumptions C12_parent_append_basename_refuted.
+
+(* splitleaf is (parent, basename), so the same law holds for its two results *)
+Theorem C12_splitleaf : forall p,
+  wfp p -> is_nil (suffix_str p) = false -> nodrive [last (p_comps p) []] ->
+  exists q b, splitleaf p = Some (q, b) /\ parent p = Some q /\ b = basename p /\ wfp q /\
+              append q b = Some (set_dir p (is_nil (p_comps p))).
+Proof. exact splitleaf_append. Qed.
+Print Assumptions C12_splitleaf.
+
+(* relpath / append: for well-formed paths under the same non-absolute root - provided that, when q is an ancestor
+   of p, the first component of p below q is not of the form x:... (finding relpath-drive-like) - appending to q
+   the relative path from q to p gives exactly p's root and components.  The directory flag is set iff p is q or
+   an ancestor of q (append derives it from the string), the destdir flag is the one of q. *)
+Theorem C12_relpath_append : forall fl p q,
+  wfp p -> wfp q -> p_root p = p_root q -> root_eqb (p_root p) Absolute = false ->
+  (common_len (p_comps q) (p_comps p) = length (p_comps q) ->
+   nodrive (skipn (common_len (p_comps q) (p_comps p)) (p_comps p))) ->
+  exists s, relpath fl p q [] false = Some s /\
+    append q s = Some {| p_root := p_root p; p_drive := []; p_slashes := 0; p_comps := p_comps p;
+                         p_dir := is_nil (skipn (common_len (p_comps q) (p_comps p)) (p_comps p));
+                         p_destdir := p_destdir q |}.
+Proof. exact relpath_append. Qed.
+Print Assumptions C12_relpath_append.
+
+(* as Python equality sees it (equality compares root, suffix and the destdir flag) *)
+Theorem C12_relpath_append_eq : forall fl p q,
+  wfp p -> wfp q -> p_root p = p_root q -> root_eqb (p_root p) Absolute = false ->
+  p_destdir p = p_destdir q ->
+  (common_len (p_comps q) (p_comps p) = length (p_comps q) ->
+   nodrive (skipn (common_len (p_comps q) (p_comps p)) (p_comps p))) ->
+  exists s r, relpath fl p q [] false = Some s /\ append q s = Some r /\ path_eqb r p = true.
+Proof. exact relpath_append_eq. Qed.
+Print Assumptions C12_relpath_append_eq.
+
+(* an absolute path is its own relative path from anywhere (whatever prefix); appending it to any well-formed path
+   gives it back *)
+Theorem C12_relpath_append_abs : forall fl p q pre,
+  wfp p -> wfp q -> root_eqb (p_root p) Absolute = true ->
+  relpath fl p q pre false = Some (suffix_str p) /\
+  append q (suffix_str p) = Some {| p_root := Absolute; p_drive := []; p_slashes := 1; p_comps := p_comps p;
+                                    p_dir := is_nil (p_comps p); p_destdir := p_destdir q |}.
+Proof. exact relpath_append_abs. Qed.
+Print Assumptions C12_relpath_append_abs.
+
+(* the rpath form (C14): with a non-empty prefix such as $ORIGIN, not ending in a separator, relpath returns the
+   prefix alone when the two paths are the same place, otherwise prefix, separator and the relative path s of
+   C12_relpath_append *)
+Theorem C12_relpath_prefix : forall p q pre loc,
+  wfp p -> wfp q -> p_root p = p_root q -> root_eqb (p_root p) Absolute = false ->
+  is_nil pre = false -> ends_with_slash pre = false ->
+  exists s, relpath Posix p q [] loc = Some s /\
+    relpath Posix p q pre loc = Some (if str_eqb s dot then pre else pre ++ c_slash :: s).
+Proof. exact relpath_prefix. Qed.
+Print Assumptions C12_relpath_prefix.
+
+(* the guard is needed: the relative path a:/y is re-parsed as a drive-prefixed absolute path *)
+Theorem C12_relpath_append_refuted : exists p q r,
+  mk (STR "x/a:/y") (RRoot Srcdir) None None = Some p /\ mk (STR "x") (RRoot Srcdir) None None = Some q /\
+  wfp p /\ wfp q /\ relpath Posix p q [] false = Some (STR "a:/y") /\
+  append q (STR "a:/y") = Some r /\ p_root r = Absolute.
+Proof.
+  do 3 eexists. split; [vm_compute; reflexivity|]. split; [vm_compute; reflexivity|].
+  split; [|split; [|vm_compute; auto]].
+  all: constructor; cbn; try reflexivity; try lia; try discriminate.
+  all: try (apply normalb_ok; vm_compute; reflexivity).
+  all: try (intros _; vm_compute; discriminate).
+Qed.
+Print Assumptions C12_relpath_append_refuted.
+
+(* stripext / addext: for EVERY well-formed path stripext succeeds, gives a well-formed path under the same root,
+   and adding the extension back returns the path exactly (all fields, Leibniz equality); stripext with a
+   replacement is stripext followed by addext; the extension never contains a separator *)
+Theorem C12_stripext_addext : forall p, wfp p ->
+  exists st, stripext p None = Some st /\ wfp st /\ p_root st = p_root p /\
+             addext st (ext p) = Some p /\ (forall r, stripext p (Some r) = addext st r) /\
+             ~ In c_slash (ext p).
+Proof. exact stripext_addext. Qed.
+Print Assumptions C12_stripext_addext.
+
+(* realize = ordinary joining: a well-formed path under a non-absolute root whose variable has the non-empty
+   value base, not ending in a separator, is realised (POSIX flavour, with the variable separator) as
+   posixpath.join(base, suffix) - base alone for the root directory itself - preceded by the DESTDIR value when
+   the path is destdir-flagged and the variable is defined *)
+Theorem C12_realize_join : forall vars dv ex loc p base,
+  wfp p -> root_eqb (p_root p) Absolute = false -> vars (p_root p) = Some base ->
+  is_nil base = false -> ends_with_slash base = false ->
+  realize Posix vars dv ex true loc p =
+  destdir_prefix dv p ++ (if is_nil (suffix_str p) then base else posix_join base (suffix_str p)).
+Proof. exact realize_join. Qed.
+Print Assumptions C12_realize_join.
+
+(* string() against a string-valued base directory, either flavour: the localised join *)
+Theorem C12_string_join : forall fl vars p base,
+  wfp p -> root_eqb (p_root p) Absolute = false -> vars (p_root p) = VStr base ->
+  is_nil base = false -> ends_with_slash base = false ->
+  path_string fl vars p =
+  Some (localize fl (if is_nil (suffix_str p) then base else posix_join base (suffix_str p))).
+Proof. exact string_join. Qed.
+Print Assumptions C12_string_join.
+
+(* for every path and flavour the localised realisation is the localisation of the plain one *)
+Theorem C12_realize_localize : forall fl vars dv ex vsep p,
+  realize fl vars dv ex vsep true p = localize fl (realize fl vars dv ex vsep false p).
+Proof. exact realize_localize. Qed.
+Print Assumptions C12_realize_localize.
+
+(* absolute paths realise to their suffix (after the DESTDIR value when it applies), never with a ./ prefix *)
+Theorem C12_realize_abs : forall vars dv ex vsep loc p,
+  wfp p -> root_eqb (p_root p) Absolute = true ->
+  realize Posix vars dv ex vsep loc p = destdir_prefix dv p ++ suffix_str p.
+Proof. exact realize_abs. Qed.
+Print Assumptions C12_realize_abs.
+
+(* the executable form: with no value for the root, ./ is put in front exactly when the suffix has no separator *)
+Theorem C12_realize_executable : forall vars dv loc p,
+  wfp p -> root_eqb (p_root p) Absolute = false -> vars (p_root p) = None ->
+  (p_destdir p = true -> dv = None) ->
+  realize Posix vars dv true true loc p =
+  if has_slash (suffix_str p) then suffix_str p
+  else if is_nil (suffix_str p) then dot else posix_join dot (suffix_str p).
+Proof. exact realize_executable. Qed.
+Print Assumptions C12_realize_executable.
+
+(* the guard on the base value is needed: against the file-system root the realisation has two leading slashes *)
+Theorem C12_realize_join_refuted : exists p,
+  mk (STR "a") (RRoot Srcdir) None None = Some p /\
+  realize Posix (fun _ => Some (STR "/")) None false true false p = STR "//a" /\
+  posix_join (STR "/") (suffix_str p) = STR "/a".
+Proof. eexists. vm_compute. repeat split. Qed.
+Print Assumptions C12_realize_join_refuted.
+
 (* non-vacuity *)
+Example ex_realize : exists p q,
+  mk (STR "sub/prog") (RRoot Builddir) None None = Some p /\ mk (STR "lib") (RRoot Libdir) (Some true) None = Some q /\
+  realize Posix (fun _ => Some (STR "$(builddir)")) None false true true p = STR "$(builddir)/sub/prog" /\
+  realize Posix (fun _ => Some (STR "/usr/lib")) (Some (STR "$(DESTDIR)")) false true true q = STR "$(DESTDIR)/usr/lib/lib" /\
+  stripext p (Some (STR ".o")) = addext p (STR ".o").
+Proof. do 2 eexists. vm_compute. repeat split. Qed.
+Example ex_stripext : exists p st,
+  mk (STR "src/foo.tar.gz") (RRoot Srcdir) None None = Some p /\ stripext p None = Some st /\
+  suffix_str st = STR "src/foo.tar" /\ ext p = STR ".gz" /\ addext st (ext p) = Some p.
+Proof. do 2 eexists. vm_compute. repeat split. Qed.
+Example ex_relpath : exists p q,
+  mk (STR "a/b/c.o") (RRoot Builddir) None None = Some p /\ mk (STR "a/lib/x/") (RRoot Builddir) None None = Some q /\
+  relpath Posix p q [] false = Some (STR "../../b/c.o") /\ append q (STR "../../b/c.o") = Some p /\
+  relpath Posix p q (STR "$ORIGIN") true = Some (STR "$ORIGIN/../../b/c.o") /\
+  relpath Posix q q (STR "$ORIGIN") true = Some (STR "$ORIGIN").
+Proof. do 2 eexists. vm_compute. repeat split. Qed.
+Example ex_parent_append : exists p q,
+  mk (STR "a/b.c/") (RRoot Srcdir) None None = Some p /\ parent p = Some q /\ suffix_str q = STR "a" /\
+  basename p = STR "b.c" /\ p_dir p = true /\ append q (basename p) = Some (set_dir p false).
+Proof. do 2 eexists. vm_compute. repeat split. Qed.
+Example ex_uniquetrees : exists a b c d,
+  mk (STR "x/foo/a") (RRoot Srcdir) None None = Some a /\ mk (STR "x/foo.c") (RRoot Srcdir) None None = Some b /\
+  mk (STR "x/foo") (RRoot Srcdir) None None = Some c /\ mk (STR "x/foo") (RRoot Builddir) None None = Some d /\
+  uniquetrees [a; b; c; d; c] = [c; b; d].
+Proof. do 4 eexists. vm_compute. repeat split. Qed.
+Example ex_commonprefix : exists a b c r,
+  mk (STR "x/foo/a") (RRoot Srcdir) None None = Some a /\ mk (STR "x/foo.c") (RRoot Srcdir) None None = Some b /\
+  mk (STR "x/foo") (RRoot Srcdir) None None = Some c /\
+  commonprefix [a; b; c] = Some (Some r) /\ p_comps r = [STR "x"] /\ p_dir r = true.
+Proof. do 4 eexists. vm_compute. repeat split. Qed.
 Example ex_wfp : exists p, mk (STR "a\.\b/../c.x//") (RRoot Builddir) None None = Some p /\ wfp p
                            /\ to_json p = (STR "a/c.x/", STR "builddir", false).
 Proof.
